@@ -222,11 +222,11 @@ BAD_PATH = [('C13', 'only-for-an-empty-path', 'len(utf8(device_path)) == 0'),
             ('C13', 'not-a-byte-written', 'G.wire == old(G.wire) and G.nwrites == old(G.nwrites)'),
             ('C13', 'no-local-file-created', 'G.files_opened == old(G.files_opened)'),
             ('C13', 'nothing-read-no-stream-opened', 'G.rpos == old(G.rpos) and self._local_id == old(self._local_id) and G.di == old(G.di)'),
-            RELEASED]
+            RELEASED, MONO]
 FS_FAIL = [('AdbCommandFailureException', [RELEASED, MONO]), ('InvalidResponseError', [RELEASED, MONO]), ('KeyError', [RELEASED, MONO]),
            ('DevicePathInvalidError', BAD_PATH)]
 ONLY_NEW_STREAM = ('G.di == store(old(G.di), {0}, G.di[{0}]) and G.fi == store(old(G.fi), {0}, G.fi[{0}]) and '
-                   'G.sgot == store(old(G.sgot), {0}, G.sgot[{0}])').format(NLID)
+                   'G.sgot == store(old(G.sgot), {0}, G.sgot[{0}]) and G.spos == store(old(G.spos), {0}, G.spos[{0}])').format(NLID)
 
 contract('AdbDevice.stat',
          real=dev('stat'),
@@ -273,3 +273,124 @@ contract('AdbDevice.list',
              ('C09', 'old(self._available) and len(utf8(device_path)) > 0 and self._local_id == %s' % NLID),
          ])},
          doc='the inlined _filesync_read_until generator reads one record per iteration; DENT records become entries, DONE ends the listing')
+
+
+# ---------------------------------------------------------------------------------------------------------------------
+# local files and callbacks (assumed library / user-code contracts)
+
+contract('FileW.write', trusted=True,
+         params={'self': 'opaque:FileW', 'data': 'bytes'},
+         modifies=['G.fout', 'G.now'],
+         ensures=['G.fout == old(G.fout) + data', 'G.now >= old(G.now)'],
+         raises={'*': ['G.now >= old(G.now)']})
+
+contract('FileR.read', trusted=True,
+         params={'self': 'opaque:FileR', 'size': 'int'}, returns='bytes',
+         modifies=['G.fpos', 'G.now'],
+         ensures=['len(result) <= ite(size > 0, size, len(G.fin))', 'result == G.fin[old(G.fpos):old(G.fpos) + len(result)]',
+                  'G.fpos == old(G.fpos) + len(result) and G.fpos <= len(G.fin)', '(len(result) == 0) == (old(G.fpos) == len(G.fin))',
+                  'G.now >= old(G.now)'],
+         raises={'*': ['G.now >= old(G.now)', 'G.fpos >= old(G.fpos) and G.fpos <= len(G.fin)']},
+         doc='a regular file or BytesIO opened for reading: any 1..size bytes, empty only at end of file')
+
+contract('FileR.fileno', trusted=True,
+         params={'self': 'opaque:FileR'}, returns='int', modifies=[],
+         ensures=['result >= 0'], raises={})
+
+contract('MemR.read', trusted=True,
+         params={'self': 'opaque:MemR', 'size': 'int'}, returns='bytes',
+         modifies=['G.fpos', 'G.now'],
+         ensures=['len(result) <= ite(size > 0, size, len(G.fin))', 'result == G.fin[old(G.fpos):old(G.fpos) + len(result)]',
+                  'G.fpos == old(G.fpos) + len(result) and G.fpos <= len(G.fin)', '(len(result) == 0) == (old(G.fpos) == len(G.fin))',
+                  'G.now >= old(G.now)'],
+         raises={})
+
+contract('MemR.fileno', trusted=True,
+         params={'self': 'opaque:MemR'}, returns='int', modifies=[],
+         requires=['False'],
+         ensures=['False'], raises={'io.UnsupportedOperation': []},
+         doc='io.BytesIO.fileno() always raises io.UnsupportedOperation')
+
+contract('ProgressCallback.__call__', trusted=True,
+         params={'self': 'opaque:ProgressCallback', 'device_path': 'str', 'bytes_written': 'int', 'total_bytes': 'int'},
+         modifies=['G.cb_bytes', 'G.now'],
+         ensures=['G.cb_bytes == old(G.cb_bytes) + bytes_written', 'G.now >= old(G.now)'],
+         raises={'*': ['G.cb_bytes == old(G.cb_bytes) + bytes_written', 'G.now >= old(G.now)']},
+         doc='user code: may raise anything; does not touch the device (A-CALLBACK)')
+
+# ---------------------------------------------------------------------------------------------------------------------
+# pull  (C08, C10)
+
+F1 = 'old(G.fi)[%s]' % LID
+PULLED = '(G.fi[{0}] - {1} - 1)'.format(LID, F1)
+PULL_FS_MOD = IO_MOD + RD_MOD + FS_MOD + ['G.fi', 'G.spos', 'G.sync_out', 'G.sync_flushed', 'G.nsync', 'G.pushed', 'G.fout', 'G.cb_bytes', 'self._local_id']
+FS_RD_FAIL = [('AdbCommandFailureException', [RELEASED, MONO]), ('InvalidResponseError', [RELEASED, MONO]), ('KeyError', [RELEASED, MONO])]
+
+contract('AdbDevice._pull',
+         real=dev('_pull'),
+         params={'self': 'obj:AdbDevice', 'device_path': 'str', 'stream': 'opaque:FileW', 'progress_callback': 'opt[opaque:ProgressCallback]',
+                 'adb_info': 'obj:AdbInfo', 'filesync_info': 'obj:FSInfo'},
+         locals={'total_bytes': 'int'},
+         variants=[FSREAD_VARIANTS[0]],
+         props=['C08', 'C10', 'C04', 'C12'],
+         requires=STREAM_OK + FS_INV_S + [RINV, "{0}.recv_message_format == b'<2I' and {0}.recv_message_size == 8".format(FS), D_MAXDATA, D_PATH,
+                                          '{0}._maxdata == self._maxdata'.format(FS),
+                                          'self._local_id >= 1 and self._local_id < 2**32 and val(adb_info.local_id) == self._local_id',
+                                          'self._available', NOLOCK],
+         modifies=PULL_FS_MOD,
+         ensures=[('C08', 'writes-exactly-the-DATA-payloads-in-order', 'G.fout == old(G.fout) + catFS({0}, {1}, {2}) and {2} >= 0'.format(LID, F1, PULLED)),
+                  ('C08', 'stops-at-DONE', 'FS_id({0}, G.fi[{0}] - 1) == DONE'.format(LID)),
+                  ('C08', 'callback-sees-byte-counts-summing-to-the-size',
+                   'implies(not isnone(progress_callback), G.cb_bytes - old(G.cb_bytes) == len(G.fout) - len(old(G.fout)))'),
+                  ('C08', 'no-callback-no-calls', 'implies(isnone(progress_callback), G.cb_bytes == old(G.cb_bytes))'),
+                  RELEASED, MONO],
+         raises=dict(exc_all([RELEASED, MONO]), **dict(FS_RD_FAIL + [('AdbConnectionError', [RELEASED, MONO]), ('DevicePathInvalidError', [RELEASED, MONO])])),
+         loops={0: dict(invariant=[
+             ('C08', 'G.fout == old(G.fout) + catFS({0}, {1}, G.fi[{0}] - {1}) and G.fi[{0}] >= {1}'.format(LID, F1)),
+             ('C08', 'implies(not isnone(progress_callback), G.cb_bytes - old(G.cb_bytes) == len(G.fout) - len(old(G.fout)))'),
+             ('C08', 'implies(isnone(progress_callback), G.cb_bytes == old(G.cb_bytes))'),
+             ('C08,C04', FS_INV_S[0] + ' and ' + FS_INV_S[1]),
+             ('C08,C04', RINV),
+             ('C08,C04,C12', UNLOCKED), ('C08,C04', MONO + ' and G.rpos >= 0'),
+         ])},
+         doc='RECV request, then one DATA record per iteration written to the destination, until DONE; callback failures are swallowed')
+
+klass('_BytesIO', {'_bytesio': 'opaque:Mem'}, real={'async': 'adb_device_async:_AsyncBytesIO'})
+
+contract('Mem.write', trusted=True,
+         params={'self': 'opaque:Mem', 'data': 'bytes'},
+         modifies=['G.fout', 'G.now'],
+         ensures=['G.fout == old(G.fout) + data', 'G.now >= old(G.now)'], raises={})
+
+contract('Mem.read', trusted=True,
+         params={'self': 'opaque:Mem', 'size': 'int'}, returns='bytes',
+         modifies=['G.fpos', 'G.now'],
+         ensures=['len(result) <= ite(size > 0, size, len(G.fin))', 'result == G.fin[old(G.fpos):old(G.fpos) + len(result)]',
+                  'G.fpos == old(G.fpos) + len(result) and G.fpos <= len(G.fin)', '(len(result) == 0) == (old(G.fpos) == len(G.fin))',
+                  'G.now >= old(G.now)'],
+         raises={})
+
+contract('Mem.fileno', trusted=True,
+         params={'self': 'opaque:Mem'}, returns='int', modifies=[],
+         requires=[], ensures=['False'], raises={'io.UnsupportedOperation': []},
+         doc='io.BytesIO.fileno() always raises io.UnsupportedOperation')
+
+PULL_TOP_MOD = FS_OP_MOD + ['G.fout', 'G.cb_bytes', 'G.files_opened']
+NF1 = 'old(G.fi)[%s]' % NLID
+
+contract('AdbDevice.pull',
+         real=dev('pull'),
+         params={'self': 'obj:AdbDevice', 'device_path': 'str', 'local_path': 'str', 'progress_callback': 'opt[opaque:ProgressCallback]',
+                 'transport_timeout_s': 'opt[real]', 'read_timeout_s': 'real'},
+         variants=[{'local_path': 'str'}, {'local_path': 'opaque:Mem'}],
+         props=['C08', 'C10', 'C13', 'C04', 'C12'],
+         requires=OP_REQ + [D_MAXDATA, D_PATH],
+         modifies=PULL_TOP_MOD,
+         ensures=[AVAIL, ('C13', 'path-not-empty', 'len(utf8(device_path)) > 0'),
+                  ('C08', 'destination-receives-exactly-the-DATA-payloads-in-order',
+                   'G.fout == old(G.fout) + catFS({0}, {1}, G.fi[{0}] - {1} - 1) and FS_id({0}, G.fi[{0}] - 1) == DONE'.format(NLID, NF1)),
+                  ('C08,C04', 'stream-closed-afterwards', 'D_cmd({0}, G.di[{0}] - 1) == CLSE'.format(NLID)),
+                  ('C08', 'opens-the-destination-once-if-it-is-a-path', 'G.files_opened == old(G.files_opened) + ite(isstr(local_path), 1, 0)'),
+                  RELEASED, MONO],
+         raises=op_raises(FS_FAIL + [('OSError', [RELEASED, ('C13', 'was-available', 'old(self._available)')])]),
+         doc='path checks first, destination opened wb, _pull, and _clse on every exit of _pull (try/finally)')
